@@ -92,7 +92,7 @@ func plans() []planT {
 
 func run(c *wk.Ctx) {
 	ps := plans()
-	reps := c.Pick(4, 40)
+	reps := c.Pick(6, 40)
 	n := len(ps) * reps
 	for i := 0; i < n; i++ {
 		if c.Mine(i) {
